@@ -19,7 +19,18 @@ GSFA_PERF = [
         rules=["lit:NewWriter_PubkeyToOffsetAndSize:1000000=1"]),
 ]
 
+MAINKIT = ["main/kit_test.go", "main/epochkit_test.go"]
+# Performance-only: the sig-exists writer pre-allocates 65536 x 16000 uint64 (8 GiB) per writer; checks that build
+# hundreds of small epochs shrink that capacity hint (semantics unchanged; C05 keeps the real value).
+EPOCH_PERF = [job("$REPO/bucketteer", MOD + "/bucketteer", ["write.go"], sync=False, rules_only=True, rules=["lit:newPrefixToHashes:16_000=16"])]
+
 CHECKS = {
+    "C01": {
+        "pkg": ".", "harness": MAINKIT + ["main/c01_test.go"], "run": "^TestVerif_C01$",
+        "level": "exploration", "instrument": EPOCH_PERF,
+        "quick": {"shards": 16, "budget_s": 150},
+        "thorough": {"shards": 16, "budget_s": 1800},
+    },
     "C06": {
         "pkg": "gsfa", "harness": ["gsfa/kit_test.go", "gsfa/c06_test.go", "gsfa/c06_real_test.go"], "run": "^TestVerif_C06_Sched$",
         "level": "model_checking",
